@@ -358,8 +358,8 @@ impl<'a, 'b> Ctx<'a, 'b> {
             }
         }
         let kind = what.split(' ').next().unwrap_or("").to_string();
-        for (k, e, _) in after {
-            // every entry is checked in the step in which it appears or changes
+        for (k, e, is_pending) in after {
+            // every entry (and every candidate in a pending slot) is checked in the step in which it appears or changes
             if before.iter().any(|(k0, e0, _)| k0 == k && e0 == e) {
                 continue;
             }
@@ -397,7 +397,16 @@ impl<'a, 'b> Ctx<'a, 'b> {
                                 self.hist.add("c12:observation_session_or_add_replaced_record_by_lower_seq");
                             }
                         } else {
-                            self.failures.push(("C12".into(), format!("a stored record changed in a {} step", kind)));
+                            self.failures.push((
+                                "C12".into(),
+                                format!(
+                                    "the record stored for {} was replaced in a {} step (neither a session, nor an add by the user, nor a discovered record with a higher sequence number): seq {} over seq {}",
+                                    if *is_pending { "the candidate in a bucket's pending slot" } else { "a table entry" },
+                                    kind,
+                                    e.seq(),
+                                    old.seq()
+                                ),
+                            ));
                         }
                     }
                 }
@@ -477,7 +486,8 @@ async fn ip_limit_opening(c: &mut Ctx<'_, '_>) {
         let before = snapshot(&c.a.s.kbuckets.read());
         let ri = c.recs.get(spec);
         let enr = c.recs.list[ri].enr.clone();
-        let code = add_code(c.a.s.discv5.add_enr(enr));
+        let code = add_code(c.a.s.discv5.add_enr(enr.clone()));
+        check_unaffected(c, &enr, code);
         let vid = c.recs.list[ri].vid;
         c.hist.add(&format!("c12:op_add_enr_{}", code));
         c.record(&before, format!("XAdd {}", vid), vec![code], "add_enr", Some(idents[spec.ident].id), &[ri]);
@@ -968,7 +978,8 @@ async fn full_bucket_opening(c: &mut Ctx<'_, '_>) {
         let before = snapshot(&c.a.s.kbuckets.read());
         let ri = c.recs.get(&opening_rec(mode, n, *i, 1));
         let enr = c.recs.list[ri].enr.clone();
-        let code = add_code(c.a.s.discv5.add_enr(enr));
+        let code = add_code(c.a.s.discv5.add_enr(enr.clone()));
+        check_unaffected(c, &enr, code);
         let vid = c.recs.list[ri].vid;
         c.hist.add(&format!("c12:op_add_enr_{}", code));
         c.record(&before, format!("XAdd {}", vid), vec![code], "add_enr", Some(idents[*i].id), &[ri]);
@@ -982,6 +993,190 @@ async fn full_bucket_opening(c: &mut Ctx<'_, '_>) {
     session(c, cand, ri, false).await;
     bucket_who_queries(c, cand, big[17], big[3]).await;
     c.hist.add("c12:full_bucket_opening_full_scenario");
+}
+
+/// Scripted opening (any IP mode, any table filter but reject-all): the PONG of a node that waits in the
+/// pending slot of its bucket arrives while a running lookup holds an older record of that node - a
+/// record that merely appeared in somebody's NODES answer.
+///  1. (a) a session with node N (record of seq 2): N becomes an entry, the service pings it, and the user
+///     removes N again; or (b, dual stack) sessions with 16 nodes of N's bucket fill the bucket with
+///     connected entries, N's session is refused and the service pings N because it is short of IP votes;
+///  2. (a) the user adds 16 nodes of N's bucket (disconnected entries) / (b) the ping of one of the 16
+///     fails: it is disconnected;
+///  3. a (second) session with N (seq 2): N is parked in the bucket's pending slot;
+///  4. a lookup for N's id; the first peer asked answers with an older record of N (seq 1, another port),
+///     which stays with the lookup; a who-are-you query about N;
+///  5. N's PONG for the ping of step 1 arrives (model step `XPongQ`, Model.Admission.pong_q);
+///  6. N answers the lookup's request with no records, the other requests fail, the lookup ends;
+///  7. the pending timeout elapses (hook) and the table is iterated.
+/// The C12 monitor of `record` runs after every step (entries and pending slots): a stored record is
+/// replaced only in a session / add / discovered step, and by a discovered record only with a strictly
+/// higher sequence number. A step that cannot be set up ends the opening (never a failure).
+async fn pending_pong_opening(c: &mut Ctx<'_, '_>, rng: &mut Rng) {
+    let idents = c.idents;
+    let mode = c.mode;
+    let local_id = idents[c.local].id;
+    c.hist.add("c12:pending_pong_opening_attempted");
+    let mut by_d: std::collections::BTreeMap<u64, Vec<usize>> = Default::default();
+    for (i, x) in idents.iter().enumerate() {
+        if i != c.local && x.id != local_id {
+            by_d.entry(log2dist(&local_id, &x.id)).or_default().push(i);
+        }
+    }
+    let (dmax, mut big) = match by_d.iter().max_by_key(|(d, v)| (v.len(), **d)) {
+        Some((d, v)) => (*d, v.clone()),
+        None => return,
+    };
+    if big.len() < 18 {
+        c.hist.add("c12:pending_pong_opening_skipped_too_few_identities");
+        return;
+    }
+    // which nodes of the bucket play which part differs from case to case
+    for i in (1..big.len()).rev() {
+        let j = rng.below(i as u64 + 1) as usize;
+        big.swap(i, j);
+    }
+    let bucket = (dmax - 1) as usize;
+    let cand = big[16];
+    let cand_id = idents[cand].id;
+    let variant_b = mode == IpMode::DualStack && rng.chance(1, 2);
+    let is_pending = |c: &Ctx<'_, '_>| snapshot(&c.a.s.kbuckets.read()).iter().any(|(k, _, p)| *k == cand_id && *p);
+    let cand_rec = c.recs.get(&opening_rec(mode, 16, cand, 2));
+    if !variant_b {
+        // 1a. + 2a.
+        session(c, cand, cand_rec, false).await;
+        if !snapshot(&c.a.s.kbuckets.read()).iter().any(|(k, _, p)| *k == cand_id && !*p) {
+            c.hist.add("c12:pending_pong_opening_ended_first_session_not_admitted");
+            return;
+        }
+        let before = snapshot(&c.a.s.kbuckets.read());
+        let _ = c.a.s.discv5.remove_node(&idents[cand].node_id());
+        c.hist.add("c12:op_remove_node");
+        c.record(&before, format!("XUnv {}", coq_hex(&cand_id)), vec![], "remove_node", None, &[]);
+        for (n, i) in big.iter().take(16).enumerate() {
+            let before = snapshot(&c.a.s.kbuckets.read());
+            let ri = c.recs.get(&opening_rec(mode, n, *i, 1));
+            let enr = c.recs.list[ri].enr.clone();
+            let code = add_code(c.a.s.discv5.add_enr(enr.clone()));
+        check_unaffected(c, &enr, code);
+            let vid = c.recs.list[ri].vid;
+            c.hist.add(&format!("c12:op_add_enr_{}", code));
+            c.record(&before, format!("XAdd {}", vid), vec![code], "add_enr", Some(idents[*i].id), &[ri]);
+            if code != 0 {
+                c.hist.add("c12:pending_pong_opening_ended_add_refused");
+                return;
+            }
+        }
+    } else {
+        // 1b. + 2b.
+        for (n, i) in big.iter().take(16).enumerate() {
+            let ri = c.recs.get(&opening_rec(mode, n, *i, 1));
+            session(c, *i, ri, false).await;
+        }
+        session(c, cand, cand_rec, false).await;
+        if snapshot(&c.a.s.kbuckets.read()).iter().any(|(k, _, _)| *k == cand_id) {
+            c.hist.add("c12:pending_pong_opening_ended_bucket_not_full");
+            return;
+        }
+        let victim = big[rng.below(16) as usize];
+        let oi = match (0..c.outstanding.len()).find(|i| c.outstanding[*i].kind == ReqKind::Ping && c.outstanding[*i].ident == victim) {
+            Some(oi) => oi,
+            None => {
+                c.hist.add("c12:pending_pong_opening_ended_no_ping_to_fail");
+                return;
+            }
+        };
+        let before = snapshot(&c.a.s.kbuckets.read());
+        let o = c.outstanding.remove(oi);
+        c.a.inject(HandlerOut::RequestFailed(o.id.clone(), RequestError::Timeout)).await;
+        c.absorb();
+        c.hist.add("c12:op_failure");
+        c.record(&before, format!("XFailure {}", coq_hex(&idents[victim].id)), vec![], "failure", None, &[]);
+    }
+    if !(0..c.outstanding.len()).any(|i| c.outstanding[i].kind == ReqKind::Ping && c.outstanding[i].ident == cand) {
+        c.hist.add("c12:pending_pong_opening_ended_no_ping_to_the_candidate");
+        return;
+    }
+    // 3.
+    session(c, cand, cand_rec, rng.chance(1, 2)).await;
+    if !is_pending(c) {
+        c.hist.add("c12:pending_pong_opening_ended_candidate_not_pending");
+        return;
+    }
+    // 4.
+    c.lookup_started(&cand_id);
+    let handle = tokio::spawn(c.a.s.discv5.find_node(NodeId::new(&cand_id)));
+    settle().await;
+    let mut queue = c.absorb();
+    queue.retain(|oi| c.outstanding[*oi].kind == ReqKind::FindNode && c.outstanding[*oi].ident != usize::MAX);
+    let stale = {
+        let mut spec = opening_rec(mode, 16, cand, 1);
+        spec.udp4 = spec.udp4.map(|(ip, port)| (ip, port + 1));
+        spec.udp6 = spec.udp6.map(|(ip, port)| (ip, port + 1));
+        c.recs.get(&spec)
+    };
+    let first = queue.iter().cloned().find(|oi| c.outstanding[*oi].distances.contains(&log2dist(&idents[c.outstanding[*oi].ident].id, &cand_id)));
+    let mut told = false;
+    if let Some(oi) = first {
+        queue.retain(|x| *x != oi);
+        let new = nodes_answer(c, oi, &[stale]).await;
+        queue.extend(new);
+        told = is_pending(c) && c.lookup.as_ref().map(|lk| lk.exact && lk.untrusted.contains(&stale)).unwrap_or(false);
+    }
+    if told {
+        who_are_you(c, cand, sock4(v4_host(cand).0, 30303), "pending_candidate_known_to_lookup").await;
+        // 5.
+        let held: Vec<String> = c.lookup.as_ref().map(|lk| lk.untrusted.iter().filter(|r| c.recs.id_of(**r) == cand_id).map(|r| c.recs.list[*r].vid.to_string()).collect()).unwrap_or_default();
+        if let Some(oi) = (0..c.outstanding.len()).find(|i| c.outstanding[*i].kind == ReqKind::Ping && c.outstanding[*i].ident == cand) {
+            let before = snapshot(&c.a.s.kbuckets.read());
+            // (the indices in `queue` stay valid: the entry is emptied, not removed)
+            let (rid, addr) = (c.outstanding[oi].id.clone(), c.outstanding[oi].addr.clone());
+            c.outstanding[oi].kind = ReqKind::EnrRequest;
+            c.outstanding[oi].id = RequestId(vec![]);
+            let seq = *rng.pick(&[1u64, 2, 2, 3]);
+            let (ip, port) = (IpAddr::V4(Ipv4Addr::new(203, 0, 113, 5)), NonZeroU16::new(9000).unwrap());
+            c.a.inject(HandlerOut::Response(addr, Box::new(Response { id: rid, body: ResponseBody::Pong { enr_seq: seq, ip, port } }))).await;
+            let new = c.absorb();
+            let wanted = new.iter().any(|i| c.outstanding[*i].kind == ReqKind::EnrRequest && c.outstanding[*i].ident == cand);
+            queue.extend(new.into_iter().filter(|i| c.outstanding[*i].kind == ReqKind::FindNode));
+            let _ = c.a.events();
+            c.hist.add("c12:op_pong_of_pending_candidate_known_to_lookup");
+            c.record(&before, format!("XPongQ {} {} {}", coq_hex(&cand_id), seq, coq_list(&held)), vec![wanted as u64], "pong", None, &[]);
+        }
+    } else {
+        c.hist.add("c12:pending_pong_opening_lookup_was_not_told_of_the_candidate");
+    }
+    // 6.
+    let mut guard = 0;
+    while let Some(oi) = queue.first().cloned() {
+        queue.remove(0);
+        guard += 1;
+        if guard > 120 {
+            break;
+        }
+        if c.outstanding[oi].kind != ReqKind::FindNode || c.outstanding[oi].id.0.is_empty() || c.outstanding[oi].ident == usize::MAX {
+            continue;
+        }
+        let new = if c.outstanding[oi].ident == cand { nodes_answer(c, oi, &[]).await } else { request_fails(c, oi).await };
+        queue.extend(new);
+        if queue.is_empty() {
+            queue = open_lookup_requests(c);
+        }
+    }
+    end_lookup(c, handle).await;
+    if !told {
+        return;
+    }
+    // 7.
+    c.pending_timeout_and_iteration(Some(bucket));
+    c.hist.add(if variant_b { "c12:pending_pong_opening_full_scenario_refused_session" } else { "c12:pending_pong_opening_full_scenario_removed_node" });
+    let after = snapshot(&c.a.s.kbuckets.read());
+    c.hist.add(match after.iter().find(|(k, _, _)| *k == cand_id) {
+        Some((_, e, false)) if e.seq() == 2 => "c12:pending_pong_opening_candidate_promoted_with_its_session_record",
+        Some((_, _, false)) => "c12:pending_pong_opening_candidate_promoted_with_another_record",
+        Some((_, _, true)) => "c12:pending_pong_opening_candidate_still_pending",
+        None => "c12:pending_pong_opening_candidate_dropped",
+    });
 }
 
 /// Who-are-you queries about `stranger` (a node of the candidate's bucket nobody knows), about the
@@ -1063,6 +1258,17 @@ async fn refresh_tail(c: &mut Ctx<'_, '_>) {
     }
 }
 
+/// C16, last clause: "nodes without an IPv4 address are unaffected" by IP limiting - the /24 rules never refuse
+/// a record that has no IPv4 address (codes 4 and 5: refused by the bucket's / the table's /24 limit).
+fn check_unaffected(c: &mut Ctx<'_, '_>, enr: &Enr, code: u64) {
+    if c.ip_limit && enr.ip4().is_none() && (code == 4 || code == 5) {
+        c.failures.push((
+            "C16".into(),
+            format!("with IP limiting configured the add of a node whose record has no IPv4 address was refused by the /24 limit of the {} (nodes without an IPv4 address are unaffected by IP limiting)", if code == 4 { "bucket" } else { "table" }),
+        ));
+    }
+}
+
 fn add_code(r: Result<(), &'static str>) -> u64 {
     match r {
         Ok(()) => 0,
@@ -1090,15 +1296,17 @@ pub fn run_case(idents: &[Ident], idx: u64, rng: &mut Rng, thorough: bool, hist:
         // the other scripted openings (any IP mode; a table filter that rejects everything is replaced by
         // accept-all): idx % 4 == 1 without forced IP limiting: a full bucket with a pending candidate and
         // who-are-you queries; idx % 4 == 3: who-are-you queries and lookup requests around a lookup
+        // idx % 8 == 2: the PONG of a pending candidate of which a running lookup holds an older record
         let opening = match idx % 4 {
             1 if scripted => 1,
             1 => 2,
             3 => 3,
+            2 if idx % 8 == 2 => 4,
             _ => 0,
         };
         let (mode_n, filter_n) = match opening {
             1 => (2, 0),
-            2 | 3 => (mode_n, if filter_n == 1 { 0 } else { filter_n }),
+            2 | 3 | 4 => (mode_n, if filter_n == 1 { 0 } else { filter_n }),
             _ => (mode_n, filter_n),
         };
         let mode = [IpMode::Ip4, IpMode::Ip6, IpMode::DualStack][mode_n as usize];
@@ -1163,6 +1371,7 @@ pub fn run_case(idents: &[Ident], idx: u64, rng: &mut Rng, thorough: bool, hist:
                 }
                 2 => full_bucket_opening(&mut c).await,
                 3 => lookup_opening(&mut c, &actors, rng).await,
+                4 => pending_pong_opening(&mut c, rng).await,
                 _ => {}
             }
         }
@@ -1203,6 +1412,7 @@ pub fn run_case(idents: &[Ident], idx: u64, rng: &mut Rng, thorough: bool, hist:
                     let ri = c.recs.get(&shape(rng, i));
                     let enr = c.recs.list[ri].enr.clone();
                     let code = add_code(c.a.s.discv5.add_enr(enr.clone()));
+                    check_unaffected(&mut c, &enr, code);
                     if code == 0 && contactable(mode, &enr).is_none() {
                         c.failures.push(("C12".into(), format!("add_enr accepted a record that has no socket the node can contact in IP mode {:?}", mode)));
                     }
@@ -1305,6 +1515,12 @@ pub fn run_case(idents: &[Ident], idx: u64, rng: &mut Rng, thorough: bool, hist:
                         continue;
                     }
                     let oi = *rng.pick(&cand);
+                    // for a node that is no entry (any more) the service consults the records its running queries hold
+                    // (`find_enr`): when a lookup was left running the harness does not know them
+                    if !who_predictable(&c, c.outstanding[oi].ident) {
+                        c.hist.add("c12:op_pong_skipped_records_of_lookups_not_known");
+                        continue;
+                    }
                     let o = c.outstanding.remove(oi);
                     let seq = *rng.pick(&[0u64, 1, 2, 3, 4, 6, 101, 102]);
                     let (ip, port) = (IpAddr::V4(Ipv4Addr::new(203, 0, 113, 5)), NonZeroU16::new(9000).unwrap());
